@@ -165,7 +165,7 @@ func C19(c *core.Ctx) {
 	id := 0
 	for k := 0; k < n; k++ {
 		valued := k%2 == 0
-		j := kj.Random(rng, kj.GenOpts{Valued: valued, MaxDirs: 10, DensePrices: k%4 == 0}, 18262+rng.Intn(40))
+		j := kj.Random(rng, kj.GenOpts{Valued: valued, Accruals: true, MaxDirs: 10, DensePrices: k%2 == 0}, 18262+rng.Intn(40))
 		dirs := append([]kj.Dir(nil), j.Dirs...)
 		rng.Shuffle(len(dirs), func(a, b int) { dirs[a], dirs[b] = dirs[b], dirs[a] })
 		nfiles := 1 + rng.Intn(7)
@@ -174,9 +174,13 @@ func C19(c *core.Ctx) {
 			variant = "none"
 		}
 		ntrx := 0
+		hasAccrual := false
 		for _, d := range dirs {
 			if d.K == "trx" {
 				ntrx++
+				if d.Acc.On {
+					hasAccrual = true // the expansion changes the number of transactions
+				}
 			}
 		}
 		switch variant {
@@ -218,7 +222,7 @@ func C19(c *core.Ctx) {
 		for s := 0; s < seedsPer; s++ {
 			id++
 			te := ntrx
-			if variant != "none" {
+			if variant != "none" || hasAccrual {
 				te = -1
 			}
 			scs = append(scs, c19Scenario{ID: id, Layout: lay, Cmd: cmd, Variant: variant, ExpectFail: variant != "none", TrxExpected: te, Files: files,
